@@ -15,6 +15,8 @@ __attribute__((noinline)) static void leaky_branch(const uint8_t *secret) { if (
 
 struct C08 : Harness {
     Api api = static_api();
+    bool dumponly = false;    // only generate (used to dump a corpus of public programs for the trace-diff cross-check)
+    void configure(const std::map<std::string, std::string> &kv) override { if (kv.count("dumponly")) dumponly = kv.at("dumponly") == "1"; }
 
     std::string selftest() override {
         if (!VgHooks::under_valgrind()) return "not running under valgrind/memcheck";
@@ -84,6 +86,7 @@ struct C08 : Harness {
     }
 
     std::string run(const Program &p, Stats &st) override {
+        if (dumponly) { st.case_done(ser(p), false); return ""; }
         VgHooks vh(VgHooks::TAINT);
         ExecOptions eo; eo.hooks = &vh;
         bool data_call = false; int be = -1;
